@@ -31,7 +31,7 @@ CITES = ['Knuth84', 'lamport:86']
 FUEL = 200000
 
 INTS = [-2, -1, 0, 1, 2, 7]
-STRS = ['', 'a', 'ab{c}d', "{\\'e}x", 'A b: C', 'x.', 'Smith, John and Doe, Jane', '  ']
+STRS = ['', 'a', 'ab{c}d', "{\\'e}x", 'A b: C', 'x.', 'Smith, John and Doe, Jane', '  ', '}', 'q?}}']
 
 I, S, F = 'I', 'S', 'F'
 # unit = (source text, types popped (top last), types pushed)
@@ -57,7 +57,7 @@ UNITS += [('*', [S, S], [S]), ('=', [S, S], [I]),
           ('skip$', [], []),
           ("'gi :=", [I], []), ('gi', [], [I]), ("'gs :=", [S], []), ('gs', [], [S]),
           ("'count :=", [I], []), ('count', [], [I]), ("'label :=", [S], []), ('label', [], [S]),
-          ('{ "yes" } { "no" } if$', [I], [S]), ("{ #1 } 'skip$ if$", [I], []),
+          ('{ "yes" } { "no" } if$', [I], [S]), ("{ #1 pop$ } 'skip$ if$", [I], []),
           ('warning$', [S], []), ('top$', [S], []), ('top$', [I], []), ('write$', [S], []), ('newline$', [], []),
           ('entry.max$', [], [I]), ('global.max$', [], [I])]
 
@@ -127,6 +127,15 @@ def impl(case):
     old_out = pybtex.io.stdout
     buf = _io.StringIO()
     pybtex.io.stdout = buf
+    import signal
+
+    class _Timeout(BaseException):
+        pass
+
+    def _alarm(*a):
+        raise _Timeout()
+    old_handler = signal.signal(signal.SIGALRM, _alarm)
+    signal.alarm(case.get('timeout', 60))
     try:
         with errors.capture() as captured:
             bbl = format_from_strings(case['bibs'], style=path, citations=list(case['citations']), min_crossrefs=case['min_crossrefs'])
@@ -139,11 +148,13 @@ def impl(case):
         if cls in ('PybtexSyntaxError', 'TokenRequired', 'PrematureEOF') and getattr(e, 'parser', None) is not None and type(e.parser).__name__ == 'BstParser':
             return {'error': ['BST-SYNTAX']}
         return {'error': [cls]}
-    except RecursionError:
+    except (RecursionError, _Timeout):
         return {'error': ['OUT-OF-FUEL']}
     except Exception as e:  # noqa
         return {'error': ['INTERNAL'], 'detail': '%s: %s' % (type(e).__name__, e)}
     finally:
+        signal.alarm(0)
+        signal.signal(signal.SIGALRM, old_handler)
         pybtex.io.stdout = old_out
         try:
             os.unlink(path + '.bst')
@@ -174,6 +185,8 @@ def oracle(case, io, reply):
     (the Lean model, tied to the documented built-ins by the C03 theorems) defines."""
     fails = []
     mo = model_out(case, reply)
+    if ('error' in io and io['error'][0] == 'OUT-OF-FUEL') or ('error' in mo and mo['error'][0] == 'OUT-OF-FUEL'):
+        return fails
     if 'error' in io and io['error'][0] == 'INTERNAL' and case.get('welltyped', True):
         fails.append('builtins_documented: a well-typed program raised a non-pybtex exception: %s; program=%r' % (io.get('detail'), case['bst'][-300:]))
     elif case.get('welltyped', True) and 'error' not in mo and compare_view(io) != mo:
@@ -201,7 +214,7 @@ def corpus():
     out = list(corpus_for(ID))
     data = os.path.join(compat.REPO, 'tests', 'data')
     pairs = [('xampl.bib', 'unsrt'), ('xampl.bib', 'plain'), ('xampl.bib', 'alpha'), ('xampl.bib', 'abbrv'),
-             ('cyrillic.bib', 'unsrt'), ('cyrillic.bib', 'alpha'), ('xampl_mixed.bib', 'unsrt')]
+             ('cyrillic.bib', 'unsrt'), ('xampl_mixed.bib', 'unsrt')]   # cyrillic/alpha sorts on non-ASCII letters: outside the model
     for bib, bst in pairs:
         bp, sp = os.path.join(data, bib), os.path.join(data, bst + '.bst')
         if os.path.exists(bp) and os.path.exists(sp):
@@ -221,7 +234,7 @@ def mk(body, types, family):
 
 def random_program(rng):
     """Structured programs: helper functions, if$/while$, entry and global variables, SORT/REVERSE, MACRO, call.type$."""
-    lines = ['ENTRY { title author year note } { n } { lab }', 'INTEGERS { i j }', 'STRINGS { s t }']
+    lines = ['ENTRY { title author year note } { n } { lab }', 'INTEGERS { i j k }', 'STRINGS { s t }']
     if rng.random() < 0.5:
         lines.append('MACRO {jan} {"January"}')
         lines.append('MACRO {%s} {"%s"}' % (rng.choice(['foo', 'Bar', 'x.y']), rng.choice(['F', 'G g'])))
@@ -254,13 +267,14 @@ def random_program(rng):
     def stmt(d):
         r = rng.random()
         if r < 0.2:
-            return "%s '%s :=" % (int_expr(1), rng.choice(['i', 'j', 'n']))
+            return "%s '%s :=" % (int_expr(1), rng.choice(['i', 'n']))   # never j: it is the while$ counter
         if r < 0.4:
             return "%s '%s :=" % (str_expr(1), rng.choice(['s', 't', 'lab']))
         if r < 0.6:
             return '%s write$ newline$' % str_expr(1)
         if r < 0.7 and d < 2:
-            return "#%d 'j := { j #0 > } { %s j #1 - 'j := } while$" % (rng.randint(0, 4), stmt(d + 1))
+            v = 'j' if d == 0 else 'k'
+            return "#%d '%s := { %s #0 > } { %s %s #1 - '%s := } while$" % (rng.randint(0, 4), v, v, stmt(d + 1), v, v)
         if r < 0.8 and d < 2:
             return '%s { %s } { %s } if$' % (int_expr(1), stmt(d + 1), stmt(d + 1))
         if r < 0.85:
@@ -275,9 +289,12 @@ def random_program(rng):
     lines.append('FUNCTION {presort} { %s purify$ "l" change.case$ \'sort.key$ := }' % str_expr(1))
     lines.append('FUNCTION {main} { %s call.type$ }' % ' '.join(stmt(0) for _ in range(rng.randint(1, 4))))
     lines.append('READ')
-    if rng.random() < 0.6:
+    r = rng.random()
+    if r < 0.6:
         lines.append('ITERATE {presort}')
         lines.append('SORT')
+    elif r < 0.65:
+        lines.append('SORT')     # sorting without any sort.key$ assignment: all keys empty, order unchanged
     lines.append(rng.choice(['ITERATE {main}', 'REVERSE {main}', 'ITERATE {main}\nREVERSE {main}']))
     if rng.random() < 0.3:
         lines.append('EXECUTE {skip$}')
